@@ -77,12 +77,17 @@ pub struct Plan {
 /// or two calls; 2 = two threads, more calls; 3 = three threads; 4 = four threads / long.
 pub fn plans(tier: Tier, inst: &Inst, have_ship: bool) -> Vec<Plan> {
     let mk = |build, p, s, f, split| Plan { build, cfg: rt::Config { p, s, f, ..rt::Config::default() }, split };
-    let adversary = matches!(inst.policy, rt::Policy::Adversary { .. });
-    if adversary {
-        // The adversary family is enumerated completely by its own policy (its bound is K).
-        let mut v = vec![mk("small", 0, 0, 0, 1)];
+    if let Some(p) = inst.p_with_k {
+        // Families built on free atomic-call placements bring their own preemption bound (the
+        // C08 adversary uses 0: only complete writes interrupt the thread under test).
+        let (s, f) = if p == 0 || inst.size >= 4 { (0, 0) } else { (1, 1) };
+        let extra = if tier == Tier::Thorough && p > 0 && inst.size < 4 { 1 } else { 0 };
+        // The large step-by-step + atomic-call instances run their full preemption bound in the
+        // quick tier only on the fallback-only path (the cheapest), one less on the others.
+        let p = if tier == Tier::Quick && inst.size >= 4 && !inst.name.contains("nofast") { p.saturating_sub(1) } else { p };
+        let mut v = vec![mk("small", p + extra, s, f, if p == 0 { 1 } else { 2 })];
         if tier == Tier::Thorough && have_ship {
-            v.push(mk("ship", 0, 0, 0, 1));
+            v.push(mk("ship", p, s, f, 1));
         }
         return v;
     }
@@ -339,7 +344,7 @@ pub fn run_prop(instances: &[Inst], o: &PropOpts) -> PropOutcome {
                             m4.0, m2.0
                         ),
                         choices: m4.1.clone(),
-                        cfg: "p=0,s=0,f=0,model=M1,step_cap=5000".into(),
+                        cfg: "p=0,s=0,f=0,k=4,model=M1,step_cap=5000".into(),
                         trace: vec![],
                         deterministic: true,
                     };
